@@ -263,16 +263,19 @@ func (r *run) runFaults() {
 				r.probe("faulted_batch_rejected")
 			}
 		}
-		// The stream goes on only if the faulted batch was accepted (a receiver
-		// ends the stream on an error) and every sub-stream is still in step.
-		if desync || err != nil {
+		// The stream goes on only if every sub-stream is still in step. (Whether
+		// the faulted batch was accepted or rejected does not matter: since
+		// the consumer drops all its readers when a batch fails half-way, a
+		// caller that keeps using it after an error must get errors, not a
+		// panic.)
+		if desync {
 			return
 		}
+		_ = err
 		for i := nPrefix + 1; i < len(stream); i++ {
 			_, _, ferr, pan := decode(c, signal, cloneBar(stream[i].bar))
 			if pan == "" && ferr != nil {
 				r.probe("later_batch_rejected")
-				return // the stream ends on the error
 			}
 			if pan != "" {
 				if len(fs) > 0 {
